@@ -3,132 +3,513 @@ from __future__ import annotations
 
 import ast
 
+from ..cfg import CFG
 from ..loops import dotted
 from ..nf import NF, Scope, Poly
 from ..repo import Repo, loc, short, AnalysisError, positional_params
 
 EXPLANATION = (
-    "Round-trip equality is a runtime property and is NOT decided. Decided are necessary conditions: (R1) pickling symmetry of every buffer "
-    "class - the keys __getstate__ removes from the instance dict are exactly the attributes bound to dynamically created classes "
-    "(namedtuple types, the only unpicklable kind here) and __setstate__ rebuilds each of them with the same expression as __init__ after "
-    "restoring the dict, so that ring state, masks, priorities and counters travel in __dict__; subclasses add no unpicklable attribute "
-    "without extending the pair. (R2) the pickle helper dumps the state half of nnx.split(net) and load merges the given graphdef with the "
-    "loaded state on both device branches. (R3) both checkpoint writers save the unfiltered module state and wait for completion; "
-    "restore merges the restored state with the model's own graphdef."
+    "Round-trip equality is a runtime property and is NOT decided. Decided are necessary conditions, by dataflow rather than by text: "
+    "(R1) pickling symmetry of every buffer class. __getstate__ must build its result from a *copy* of the instance dict; every key it removes "
+    "must be an attribute that __setstate__ rebuilds, after restoring the dict, with an expression whose normal form equals the one in "
+    "__init__ (a derived attribute such as the namedtuple type); an attribute bound to a dynamically created class must be removed "
+    "(it cannot be pickled); a value it *transforms* (d[k] = f(..)) is followed into f: truncating the storage at anything but the fill level "
+    "loses valid rows. __setstate__ may, besides rebuilding removed attributes, only reset lazily recomputed caches; any other write to "
+    "restored state - directly or through a method whose transitive write set (effect summary through self.<attr> types) is non-empty - "
+    "changes what was saved. (R2) the pickle helper dumps the unfiltered state half of nnx.split(net) (provenance of the dumped object through "
+    "reaching definitions and device moves) and load merges the loaded object with the given graphdef on every path to the return. "
+    "(R3) both checkpoint writers save the unfiltered module state and wait for completion before publishing the path; restore reads into a "
+    "target that is the model's own state structure (an untargeted restore returns string-keyed dicts whose leaf order is the sorted key "
+    "order: '10' < '2') and merges the model's graphdef with nothing but the restored state."
 )
-TRUSTED = ["pickle round-trips plain attributes (ints, numpy arrays, OrderedDict, PriorityBuffer objects)", "nnx.split / nnx.merge are inverse for a given graphdef", "Orbax save / restore"]
+TRUSTED = ["pickle round-trips plain attributes (ints, numpy arrays, OrderedDict, PriorityBuffer objects)", "nnx.split / nnx.merge are inverse for a given graphdef", "Orbax StandardCheckpointer.save / restore(path, target) are inverse for a given target structure"]
 RULES = {
-    "R1-pickling-symmetry": "__getstate__ deletes exactly the attributes holding dynamically created classes; __setstate__ restores __dict__ and rebuilds them with __init__'s expression",
-    "R2-pickle-helper": "save_pickle dumps the state of nnx.split(net); load_pickle returns nnx.merge(graphdef, loaded state) on every branch",
-    "R3-checkpoints": "checkpoint writers save the unfiltered state and wait; restore_checkpoint merges the restored state with the model's graphdef",
+    "R1-pickling-symmetry": "__getstate__ works on a copy, removes exactly derived / unpicklable attributes, transforms nothing lossy; __setstate__ restores the dict first, rebuilds removed attributes as __init__ does and writes nothing else (lazy caches excepted)",
+    "R2-pickle-helper": "save_pickle dumps the unfiltered state of nnx.split(net); load_pickle returns nnx.merge(graphdef, loaded state) on every path",
+    "R3-checkpoints": "checkpoint writers save the unfiltered state and wait; restore_checkpoint restores into the model's own state structure and merges graphdef with the restored state only",
 }
 
 RB = "rl_blox.blox.replay_buffer."
-BUFFERS = ["ReplayBuffer", "SubtrajectoryReplayBuffer", "LAP", "PrioritizedReplayBuffer", "SubtrajectoryReplayBufferPER"]
+MODQ = "rl_blox.blox.replay_buffer"
+DYN_CTORS = ("namedtuple", "collections.namedtuple", "type", "dataclasses.make_dataclass", "make_dataclass")
+COPY_FORMS = ("dict(self.__dict__)", "self.__dict__.copy()", "{**self.__dict__}", "copy.copy(self.__dict__)", "copy(self.__dict__)", "dict(vars(self))", "vars(self).copy()")
 
 
-def _dynamic_class_attrs(repo, cq):
-    """attributes assigned `namedtuple(...)` / `type(...)` results in __init__ along the MRO -> expression text."""
+# ---------------------------------------------------------------------------------------------------------------------------
+def _init_attr_values(repo, cq):
+    """attribute -> (value AST, module) of the last `self.X = ...` in __init__ along the MRO (most derived wins)."""
     out = {}
     for c in repo.mro(cq)[::-1]:
         m = repo.method(c, "__init__", inherited=False)
         if not m:
             continue
         for n in ast.walk(m[1]):
-            if isinstance(n, ast.Assign) and isinstance(n.targets[0], ast.Attribute) and dotted(n.targets[0].value) == "self" and isinstance(n.value, ast.Call) and dotted(n.value.func) in ("namedtuple", "collections.namedtuple", "type", "dataclasses.make_dataclass"):
-                out[n.targets[0].attr] = ast.unparse(n.value)
-            if isinstance(n, ast.Assign) and isinstance(n.targets[0], ast.Attribute) and dotted(n.targets[0].value) == "self" and isinstance(n.value, ast.Lambda):
-                out[n.targets[0].attr] = ast.unparse(n.value)
+            if isinstance(n, (ast.Assign, ast.AnnAssign)) and n.value is not None:
+                for t in (n.targets if isinstance(n, ast.Assign) else [n.target]):
+                    if isinstance(t, ast.Attribute) and dotted(t.value) == "self":
+                        out[t.attr] = (n.value, repo.cls(c)._module)
     return out
 
 
-def run(ck, repo: Repo, tier: str):
-    for name in BUFFERS:
-        cq = RB + name
+def _is_dynamic_class(v):
+    return (isinstance(v, ast.Call) and dotted(v.func) in DYN_CTORS) or isinstance(v, ast.Lambda)
+
+
+def _attr_types(repo, cq):
+    out = {}
+    for a, (v, mi) in _init_attr_values(repo, cq).items():
+        if isinstance(v, ast.Call) and isinstance(v.func, ast.Name):
+            r = repo.resolve_name(mi, v.func.id)
+            if r and r.startswith("rl_blox.") and repo.has(r):
+                out[a] = r
+    return out
+
+
+def _write_set(repo, cq, meth, seen=None, prefix=""):
+    """Transitive set of attribute paths of `self` written by cq.meth (through self.m() and self.<typed attr>.m())."""
+    seen = seen if seen is not None else set()
+    if (cq, meth) in seen:
+        return set()
+    seen.add((cq, meth))
+    m = repo.method(cq, meth)
+    if m is None:
+        raise AnalysisError(f"{cq}.{meth}: method not found while summarising the effects of __setstate__")
+    fn = m[1]
+    types = _attr_types(repo, cq)
+    out = set()
+    for n in ast.walk(fn):
+        tg = []
+        if isinstance(n, ast.Assign):
+            tg = n.targets
+        elif isinstance(n, (ast.AugAssign, ast.AnnAssign)):
+            tg = [n.target]
+        for t in tg:
+            for tt in (t.elts if isinstance(t, (ast.Tuple, ast.List)) else [t]):
+                base = tt
+                while isinstance(base, ast.Subscript):
+                    base = base.value
+                d = dotted(base)
+                if d and d.startswith("self."):
+                    out.add(prefix + d[5:])
+        if isinstance(n, ast.Call) and isinstance(n.func, ast.Attribute):
+            recv = dotted(n.func.value)
+            if recv == "self":
+                out |= _write_set(repo, cq, n.func.attr, seen, prefix)
+            elif recv and recv.startswith("self.") and recv.count(".") == 1 and recv[5:] in types:
+                out |= _write_set(repo, types[recv[5:]], n.func.attr, seen, prefix + recv[5:] + ".")
+            elif recv and recv.startswith("self.") and n.func.attr in ("append", "extend", "add", "update", "clear", "pop", "remove", "insert", "fill", "sort"):
+                out.add(prefix + recv[5:])
+    return out
+
+
+def _is_lazy_cache(repo, cq, attr):
+    """Every write of self.<attr> outside __init__/__setstate__ is `None` (invalidate) or sits under `if self.<attr> is None` (recompute):
+    the attribute is a derived cache, resetting it to its constructor value does not change behaviour."""
+    n_sites = 0
+    for c in repo.mro(cq) + [s for s in repo.subclasses(cq)]:
+        cls = repo.cls(c)
+        for meth in cls.body:
+            if not isinstance(meth, ast.FunctionDef) or meth.name in ("__init__", "__setstate__"):
+                continue
+            cfg = CFG(meth)
+            for node in cfg.nodes:
+                s = node.ast
+                if node.kind != "stmt" or not isinstance(s, (ast.Assign, ast.AugAssign)):
+                    continue
+                tgs = s.targets if isinstance(s, ast.Assign) else [s.target]
+                for t in tgs:
+                    base = t
+                    while isinstance(base, ast.Subscript):
+                        base = base.value
+                    if dotted(base) != f"self.{attr}":
+                        continue
+                    n_sites += 1
+                    if isinstance(s, ast.Assign) and isinstance(s.value, ast.Constant) and s.value.value is None and t is base:
+                        continue
+                    guarded = any(cfg.nodes[b].kind == "test" and lab is True and ast.unparse(cfg.nodes[b].ast.test) == f"self.{attr} is None" for b, lab in cfg.control_deps(node.id))
+                    if not guarded:
+                        return False
+    return n_sites > 0
+
+
+def _slice_bounds(repo, mi, e, params=None, depth=0):
+    """Upper bounds of slices `x[:B]` applied in expression e, following calls into repo functions (argument substitution by name)."""
+    out = []
+    for n in ast.walk(e):
+        if isinstance(n, ast.Subscript) and isinstance(n.slice, ast.Slice) and n.slice.lower is None and n.slice.upper is not None:
+            b = n.slice.upper
+            if params and isinstance(b, ast.Name) and b.id in params:
+                b = params[b.id]
+            out.append(b)
+        if isinstance(n, ast.Call) and isinstance(n.func, ast.Name) and depth < 2:
+            r = repo.resolve_name(mi, n.func.id)
+            if r and repo.has(r) and r.startswith("rl_blox."):
+                try:
+                    f = repo.func(r)
+                except Exception:
+                    continue
+                pp = positional_params(f)
+                sub = {p: a for p, a in zip(pp, n.args)}
+                sub.update({k.arg: k.value for k in n.keywords if k.arg})
+                if params:
+                    sub = {k: (params.get(v.id, v) if isinstance(v, ast.Name) else v) for k, v in sub.items()}
+                for st in f.body:
+                    out += _slice_bounds(repo, f._module, st, sub, depth + 1)
+    return out
+
+
+def _getstate(ck, repo, nf, cq, gq, g, init_vals):
+    """Analyse one __getstate__; returns (removed keys, transformed keys) or raises AnalysisError on an unrecognised idiom."""
+    gmi = repo.cls(gq)._module
+    site = cq
+    body = [x for x in g.body if not (isinstance(x, ast.Expr) and isinstance(x.value, ast.Constant))]
+    rets = [x for x in ast.walk(g) if isinstance(x, ast.Return)]
+    ck.need(len(rets) == 1 and isinstance(rets[0].value, ast.Name), f"{gq}.__getstate__: expected a single `return <dict name>` (unrecognised idiom)")
+    dn = rets[0].value.id
+    defs = [x for x in body if isinstance(x, ast.Assign) and dotted(x.targets[0]) == dn]
+    ck.need(len(defs) == 1, f"{gq}.__getstate__: `{dn}` has {len(defs)} definitions (unrecognised idiom)")
+    src = ast.unparse(defs[0].value)
+    is_copy = src in COPY_FORMS
+    live = src in ("self.__dict__", "vars(self)")
+    ck.need(is_copy or live, f"{gq}.__getstate__: `{dn} = {src}` is neither a copy of the instance dict nor the dict itself (unrecognised idiom)")
+    ck.ob("R1-pickling-symmetry", site, "copies-dict", is_copy, f"{dn} = {src}", "" if is_copy else "__getstate__ edits the live instance dict: saving removes attributes from the object that keeps being used", loc(gmi, defs[0]))
+    removed, transformed = [], {}
+    for x in body:
+        if x is defs[0] or isinstance(x, ast.Return):
+            continue
+        if isinstance(x, ast.Delete):
+            for t in x.targets:
+                ck.need(isinstance(t, ast.Subscript) and dotted(t.value) == dn and isinstance(t.slice, ast.Constant), f"{gq}.__getstate__: `{short(x)}` (unrecognised idiom)")
+                removed.append(t.slice.value)
+        elif isinstance(x, ast.Expr) and isinstance(x.value, ast.Call) and isinstance(x.value.func, ast.Attribute) and dotted(x.value.func.value) == dn and x.value.func.attr == "pop" \
+                and x.value.args and isinstance(x.value.args[0], ast.Constant):
+            removed.append(x.value.args[0].value)
+        elif isinstance(x, ast.Assign) and isinstance(x.targets[0], ast.Subscript) and dotted(x.targets[0].value) == dn and isinstance(x.targets[0].slice, ast.Constant):
+            transformed[x.targets[0].slice.value] = x.value
+        else:
+            names = {n.id for n in ast.walk(x) if isinstance(n, ast.Name)}
+            if dn in names or any(isinstance(n, ast.Attribute) and dotted(n) and dotted(n).startswith("self.") for n in ast.walk(x) if isinstance(getattr(n, "ctx", None), ast.Store)):
+                raise AnalysisError(f"{gq}.__getstate__: `{short(x, 70)}` manipulates the pickled state in a way this check does not model")
+    # unpicklable attributes must be removed
+    dyn = sorted(a for a, (v, _) in init_vals.items() if _is_dynamic_class(v))
+    miss = sorted(set(dyn) - set(removed))
+    ck.ob("R1-pickling-symmetry", site, "unpicklable-removed", not miss, f"__getstate__ removes {sorted(removed)}; dynamically created classes / lambdas: {dyn}", "" if not miss else f"`{miss}` holds a dynamically created class and stays in the pickled state: pickling fails", loc(gmi, g))
+    # transformations: follow into helpers, look at truncations of the storage
+    for k, v in transformed.items():
+        same = ast.unparse(v) == f"self.{k}"
+        if same:
+            continue
+        bounds = _slice_bounds(repo, gmi, v)
+        sc = Scope(None, gmi, {}, gq)
+        btxt = [nf.poly(b, sc, None).canon() for b in bounds]
+        fill = {"self.current_len", "len(self)", "self.buffer_size"}
+        bad = [b for b in btxt if b not in fill and "insert_idx" in b]
+        if bad:
+            ck.ob("R1-pickling-symmetry", site, f"transformed:{k}", False, f"d['{k}'] = {short(v, 70)} truncates at {bad}",
+                  f"the pickled `{k}` is cut at the write cursor: once the ring has wrapped (insert_idx < current_len) the valid rows behind the cursor are not saved and reload as uninitialised memory", loc(gmi, v))
+        else:
+            raise AnalysisError(f"{gq}.__getstate__: the pickled `{k}` is transformed (`{short(v, 60)}`): whether __setstate__ inverts it is a round-trip question this check cannot decide")
+    return sorted(set(removed)), transformed
+
+
+def _setstate_chain(repo, cq):
+    """Statements of __setstate__ with super().__setstate__(d) calls expanded, each tagged with its defining class."""
+    out = []
+
+    def walk(c, after):
+        m = repo.method(c, "__setstate__") if after is None else None
+        if after is not None:
+            mro = repo.mro(c)
+            m = None
+            for p in mro[mro.index(after) + 1:]:
+                m = repo.method(p, "__setstate__", inherited=False)
+                if m:
+                    break
+        if m is None:
+            raise AnalysisError(f"{c}.__setstate__: super().__setstate__ has no target")
+        owner, fn = m[0], m[1]
+        for x in fn.body:
+            if isinstance(x, ast.Expr) and isinstance(x.value, ast.Constant):
+                continue
+            if isinstance(x, ast.Expr) and isinstance(x.value, ast.Call) and ast.unparse(x.value.func) == "super().__setstate__":
+                walk(c, owner)
+            else:
+                out.append((owner, fn, x))
+    walk(cq, None)
+    return out
+
+
+def r1_buffers(ck, repo, nf):
+    mod = repo.module(MODQ)
+    classes = [f"{MODQ}.{n}" for n, d in mod.defs.items() if isinstance(d, ast.ClassDef)]
+    n_pairs = 0
+    for cq in classes:
         cls = repo.cls(cq)
         mi = cls._module
-        dyn = _dynamic_class_attrs(repo, cq)
+        init_vals = _init_attr_values(repo, cq)
+        dyn = sorted(a for a, (v, _) in init_vals.items() if _is_dynamic_class(v))
         gs, ss = repo.method(cq, "__getstate__"), repo.method(cq, "__setstate__")
-        site = cq
+        if gs is None and ss is None:
+            ck.ob("R1-pickling-symmetry", cq, "default-pickling-ok", not dyn, f"dynamic-class / lambda attributes: {dyn}", "" if not dyn else "a class pickled by default holds an unpicklable attribute", loc(mi, cls))
+            continue
         ok = gs is not None and ss is not None
-        ck.ob("R1-pickling-symmetry", site, "has-state-pair", ok or not dyn, f"dynamic-class attributes {sorted(dyn)}; __getstate__ {'from ' + gs[0].rsplit('.', 1)[1] if gs else 'missing'}",
-              "" if ok or not dyn else "the class holds a dynamically created type but has no __getstate__/__setstate__: pickling fails or loses it", loc(mi, cls))
+        ck.ob("R1-pickling-symmetry", cq, "has-state-pair", ok, f"__getstate__ {'from ' + gs[0].rsplit('.', 1)[1] if gs else 'missing'}; __setstate__ {'from ' + ss[0].rsplit('.', 1)[1] if ss else 'missing'}",
+              "" if ok else "__getstate__ and __setstate__ must come as a pair", loc(mi, cls))
         if not ok:
             continue
-        g, s = gs[1], ss[1]
-        deleted = sorted(ast.literal_eval(d.targets[0].slice) for d in ast.walk(g) if isinstance(d, ast.Delete) and isinstance(d.targets[0], ast.Subscript) and isinstance(d.targets[0].slice, ast.Constant))
-        popped = sorted(ast.literal_eval(c.args[0]) for c in ast.walk(g) if isinstance(c, ast.Call) and isinstance(c.func, ast.Attribute) and c.func.attr == "pop" and c.args and isinstance(c.args[0], ast.Constant))
-        removed = sorted(set(deleted + popped))
-        ok = removed == sorted(dyn)
-        why = ""
-        if not ok:
-            extra, miss = sorted(set(removed) - set(dyn)), sorted(set(dyn) - set(removed))
-            why = (f"`{extra}` is dropped from the pickled state but is ordinary data (it would be lost on reload)" if extra else f"`{miss}` holds a dynamically created class and is not removed: pickling fails")
-        ck.ob("R1-pickling-symmetry", site, "deleted==dynamic-classes", ok, f"__getstate__ removes {removed}; dynamic-class attributes {sorted(dyn)}", why, loc(repo.cls(gs[0])._module, g))
-        gtxt = [ast.unparse(x) for x in g.body if not (isinstance(x, ast.Expr) and isinstance(x.value, ast.Constant))]
-        ok = gtxt[:1] == ["d = dict(self.__dict__)"] and gtxt[-1:] == ["return d"]
-        ck.ob("R1-pickling-symmetry", site, "copies-dict", ok, " ; ".join(gtxt), "" if ok else "__getstate__ must work on a copy of __dict__ (the live object must keep its attributes) and return it", loc(repo.cls(gs[0])._module, g))
-        stxt = [ast.unparse(x) for x in s.body if not (isinstance(x, ast.Expr) and isinstance(x.value, ast.Constant))]
+        n_pairs += 1
+        removed, transformed = _getstate(ck, repo, nf, cq, gs[0], gs[1], init_vals)
+        # ---- __setstate__ ----
+        chain = _setstate_chain(repo, cq)
+        restored_at = None
         rebuilt = {}
-        for x in s.body:
-            if isinstance(x, ast.Assign) and isinstance(x.targets[0], ast.Attribute) and dotted(x.targets[0].value) == "self":
-                rebuilt[x.targets[0].attr] = ast.unparse(x.value)
-        ok = stxt[:1] == ["self.__dict__.update(d)"]
-        ck.ob("R1-pickling-symmetry", site, "restores-dict-first", ok, " ; ".join(stxt), "" if ok else "__setstate__ must restore the pickled attributes before rebuilding derived ones", loc(repo.cls(ss[0])._module, s))
-        ok = rebuilt == dyn
-        ck.ob("R1-pickling-symmetry", site, "rebuilt==deleted", ok, f"rebuilt {rebuilt}; __init__ {dyn}", "" if ok else "every removed attribute must be rebuilt with the same expression as in __init__ (otherwise sample_batch fails or returns a different tuple type after reload)", loc(repo.cls(ss[0])._module, s))
-    # classes pickled by default: no attribute of an unpicklable kind
-    for name in ("PriorityBuffer", "MultiTaskReplayBuffer"):
-        cq = RB + name
-        dyn = _dynamic_class_attrs(repo, cq)
-        ck.ob("R1-pickling-symmetry", cq, "default-pickling-ok", not dyn, f"dynamic-class / lambda attributes: {sorted(dyn)}", "" if not dyn else "a class without __getstate__ holds an unpicklable attribute", loc(repo.cls(cq)._module, repo.cls(cq)))
+        for i, (owner, fn, x) in enumerate(chain):
+            omi = repo.cls(owner)._module
+            txt = ast.unparse(x)
+            pps = [p_ for p_ in positional_params(fn) if p_ != "self"]
+            dparam = pps[0] if pps else "d"
+            if txt in (f"self.__dict__.update({dparam})", f"self.__dict__ = {dparam}", f"vars(self).update({dparam})"):
+                restored_at = i if restored_at is None else restored_at
+                continue
+            if isinstance(x, ast.Assign) and len(x.targets) == 1 and isinstance(x.targets[0], ast.Attribute) and dotted(x.targets[0].value) == "self":
+                a = x.targets[0].attr
+                rebuilt[a] = (x.value, omi, i, x)
+                continue
+            if isinstance(x, ast.Expr) and isinstance(x.value, ast.Call) and isinstance(x.value.func, ast.Attribute) and dotted(x.value.func.value) and (dotted(x.value.func.value) == "self" or dotted(x.value.func.value).startswith("self.")):
+                recv = dotted(x.value.func.value)
+                if recv == "self":
+                    ws = _write_set(repo, cq, x.value.func.attr)
+                else:
+                    types = _attr_types(repo, cq)
+                    ck.need(recv.count(".") == 1 and recv[5:] in types, f"{owner}.__setstate__: cannot resolve `{recv}` (unrecognised idiom)")
+                    ws = {recv[5:] + "." + w for w in _write_set(repo, types[recv[5:]], x.value.func.attr)}
+                ws = {w for w in ws if w.split(".")[0] not in removed and not _is_lazy_cache(repo, cq, w.split(".")[0])}
+                ck.ob("R1-pickling-symmetry", cq, f"setstate-call:{short(x.value.func, 40)}", not ws, f"`{short(x, 60)}` writes {sorted(ws) if ws else 'nothing that was pickled'}",
+                      "" if not ws else f"__setstate__ recomputes {sorted(ws)} after restoring it: the reloaded object differs from the saved one (e.g. a running maximum replaced by the current maximum) and evolves differently",
+                      loc(omi, x))
+                continue
+            raise AnalysisError(f"{owner}.__setstate__: `{short(x, 70)}` (unrecognised idiom)")
+        ck.ob("R1-pickling-symmetry", cq, "restores-dict", restored_at is not None, "self.__dict__.update(d)" if restored_at is not None else "no restoration of the pickled attributes",
+              "" if restored_at is not None else "__setstate__ must restore the pickled attributes", loc(repo.cls(ss[0])._module, ss[1]))
+        for a in removed:
+            if a not in rebuilt:
+                derived = a in init_vals and _is_dynamic_class(init_vals[a][0])
+                ck.ob("R1-pickling-symmetry", cq, f"rebuilt:{a}", False, f"`{a}` is removed by __getstate__ and not rebuilt",
+                      f"`{a}` is {'needed by sample_batch' if derived else 'ordinary data'} and is missing after reload", loc(repo.cls(ss[0])._module, ss[1]))
+        for a, (v, omi, i, x) in rebuilt.items():
+            if a in removed or a in transformed:
+                if a in transformed:
+                    continue  # decided (or declared undecidable) with the transformation
+                ck.need(a in init_vals, f"{cq}: `{a}` rebuilt in __setstate__ but never set in __init__")
+                got = nf.poly(v, Scope(None, omi, {}, cq), None).canon()
+                want = nf.poly(init_vals[a][0], Scope(None, init_vals[a][1], {}, cq), None).canon()
+                okv = got == want
+                oko = restored_at is not None and i > restored_at
+                ck.ob("R1-pickling-symmetry", cq, f"rebuilt:{a}", okv and oko, f"self.{a} = {short(v, 60)} ({'after' if oko else 'before'} the dict is restored); __init__: {short(init_vals[a][0], 60)}",
+                      "" if okv and oko else ("the rebuilt attribute differs from the one __init__ creates (field order / names of the batch type change after reload)" if not okv else "the attribute is rebuilt from self.* before the pickled attributes are restored"), loc(omi, x))
+            else:
+                cache = _is_lazy_cache(repo, cq, a)
+                same_as_init = a in init_vals and ast.unparse(init_vals[a][0]) == ast.unparse(v)
+                ok = cache and same_as_init
+                ck.ob("R1-pickling-symmetry", cq, f"setstate-write:{a}", ok, f"self.{a} = {short(v, 50)}" + (" (lazily recomputed cache reset to its constructor value)" if ok else ""),
+                      "" if ok else f"__setstate__ overwrites `{a}`, which was saved: the reloaded object differs from the saved one", loc(omi, x))
+    ck.floor("state-pairs", n_pairs, 5)
 
-    # ---- R2 ------------------------------------------------------------------------------------------------
+
+# ---------------------------------------------------------------------------------------------------------------------------
+def _state_kind(cfg, at, e, model_names, depth=0):
+    """('full', model) | ('filtered', text) | ('unknown', text) for an expression that should denote the state of a module."""
+    if depth > 6:
+        return ("unknown", "depth")
+    if isinstance(e, ast.Name):
+        ds = cfg.defs_of(at, e.id)
+        if not ds:
+            return ("unknown", e.id)
+        kinds = []
+        for d in ds:
+            if d.kind == "assign" and d.value is not None:
+                kinds.append(_state_kind(cfg, d.node, d.value, model_names, depth + 1))
+            elif d.kind == "unpack" and isinstance(d.value, ast.Call) and dotted(d.value.func) in ("nnx.split", "flax.nnx.split"):
+                c = d.value
+                n_targets = len(cfg.nodes[d.node].ast.targets[0].elts) if isinstance(cfg.nodes[d.node].ast, ast.Assign) and isinstance(cfg.nodes[d.node].ast.targets[0], ast.Tuple) else 0
+                if len(c.args) == 1 and not c.keywords and d.path in ((1,), (-1,)) and n_targets == 2:
+                    kinds.append(("full", dotted(c.args[0])))
+                elif d.path == (0,):
+                    kinds.append(("graphdef", dotted(c.args[0])))
+                else:
+                    kinds.append(("filtered", short(c, 60)))
+            else:
+                kinds.append(("unknown", e.id))
+        if len(set(kinds)) == 1:
+            return kinds[0]
+        for k in kinds:
+            if k[0] != "full":
+                return k
+        return kinds[0]
+    if isinstance(e, ast.Call):
+        f = dotted(e.func)
+        if f in ("nnx.state", "flax.nnx.state"):
+            if len(e.args) == 1 and not e.keywords:
+                return ("full", dotted(e.args[0]))
+            return ("filtered", short(e, 60))
+        if f in ("nnx.graphdef", "flax.nnx.graphdef") and len(e.args) == 1:
+            return ("graphdef", dotted(e.args[0]))
+        if f in ("_put_on_device", "jax.device_put") and e.args:
+            return _state_kind(cfg, at, e.args[0], model_names, depth + 1)
+        if f in ("pickle.load",):
+            return ("loaded", short(e, 40))
+        if isinstance(e.func, ast.Attribute) and e.func.attr == "restore":
+            return ("restored", e)
+    if isinstance(e, ast.Subscript) and isinstance(e.value, ast.Call) and dotted(e.value.func) in ("nnx.split", "flax.nnx.split") and isinstance(e.slice, ast.Constant):
+        c = e.value
+        if len(c.args) == 1 and not c.keywords and e.slice.value in (1, -1):
+            return ("full", dotted(c.args[0]))
+        return ("filtered", short(c, 60))
+    return ("unknown", short(e, 60))
+
+
+def _calls(cfg, pred):
+    return [(n, c) for n in cfg.nodes if n.ast is not None and n.kind in ("stmt", "with") for c in ast.walk(n.ast if n.kind == "stmt" else ast.Module(body=[ast.Expr(value=i.context_expr) for i in n.ast.items], type_ignores=[])) if isinstance(c, ast.Call) and pred(c)]
+
+
+def r2_pickle_helper(ck, repo, nf):
     q = "rl_blox.util.serialize.save_pickle"
     fn = repo.func(q)
-    txt = [ast.unparse(x) for x in fn.body if not (isinstance(x, ast.Expr) and isinstance(x.value, ast.Constant))]
-    ok = txt[0] == "graphdef, state = nnx.split(net)" and any("pickle.dump(state, f)" in t for t in txt) and any("open(filename, 'wb')" in t for t in txt)
-    ck.ob("R2-pickle-helper", q, "dumps-state", ok, " ; ".join(t.replace(chr(10), ' ') for t in txt)[:160], "" if ok else "must dump the state half of nnx.split(net) to the given file", loc(fn._module, fn))
-    dev = [x for x in ast.walk(fn) if isinstance(x, ast.Assign) and dotted(x.targets[0]) == "state" and isinstance(x.value, ast.Call) and dotted(x.value.func) == "_put_on_device"]
-    ok = len(dev) == 1 and [dotted(a) for a in dev[0].value.args] == ["state", "move_to_device"]
-    ck.ob("R2-pickle-helper", q, "device-move-preserves-state", ok, f"{[ast.unparse(x) for x in dev]}", "" if ok else "moving to a device must transform the same state object that is dumped", loc(fn._module, fn))
+    mi = fn._module
+    cfg = nf.cfg_of(fn)
+    dumps = _calls(cfg, lambda c: dotted(c.func) == "pickle.dump")
+    ck.need(len(dumps) >= 1, f"{q}: no pickle.dump call (anchor vanished)")
+    netp = positional_params(fn)[1] if len(positional_params(fn)) > 1 else "net"
+    for n, c in dumps:
+        kind = _state_kind(cfg, n.id, c.args[0], {netp}) if c.args else ("unknown", "")
+        ok = kind == ("full", netp)
+        if kind[0] == "unknown":
+            raise AnalysisError(f"{q}: provenance of the dumped object `{kind[1]}` not recognised")
+        ck.ob("R2-pickle-helper", q, "dumps-state", ok, f"pickle.dump({short(c.args[0])}, ..) <- {kind[0]} state of `{kind[1] if isinstance(kind[1], str) else ''}`",
+              "" if ok else ("only part of the module state is saved (filtered split): the remaining variables are lost on reload" if kind[0] == "filtered" else f"the dumped object is the {kind[0]} of the module, not its state"), loc(mi, c))
+        p = cfg.paths_avoiding(cfg.entry, cfg.exit, {n.id})
+        ck.ob("R2-pickle-helper", q, "dump-on-every-path", p is None, "every path through save_pickle dumps", "" if p is None else "a path returns without writing the file", loc(mi, c), cfg.describe_path(p) if p else None)
     q = "rl_blox.util.serialize.load_pickle"
     fn = repo.func(q)
-    merges = [ast.unparse(x.value) for x in ast.walk(fn) if isinstance(x, ast.Assign) and dotted(x.targets[0]) == "net"]
-    loads = [ast.unparse(x.value) for x in ast.walk(fn) if isinstance(x, ast.Assign) and dotted(x.targets[0]) == "state"]
-    rets = [ast.unparse(x.value) for x in ast.walk(fn) if isinstance(x, ast.Return)]
-    ok = merges == ["nnx.merge(graphdef, state)"] * 2 and loads == ["pickle.load(f)"] * 2 and rets == ["net"]
-    ck.ob("R2-pickle-helper", q, "merge-on-both-branches", ok, f"state = {loads}; net = {merges}; return {rets}", "" if ok else "both device branches must load the state and merge it with the given graphdef", loc(fn._module, fn))
+    cfg = nf.cfg_of(fn)
+    gparam = positional_params(fn)[1] if len(positional_params(fn)) > 1 else "graphdef"
+    rets = [n for n in cfg.nodes if n.kind == "stmt" and isinstance(n.ast, ast.Return)]
+    ck.need(rets, f"{q}: no return")
+    for r in rets:
+        v = r.ast.value
+        cands = []
+        if isinstance(v, ast.Name):
+            cands = [(d.node, d.value) for d in cfg.defs_of(r.id, v.id) if d.kind == "assign"]
+            ck.need(len(cands) == len(cfg.defs_of(r.id, v.id)), f"{q}: returned value has a definition this check cannot follow")
+        else:
+            cands = [(r.id, v)]
+        for at, e in cands:
+            okm = isinstance(e, ast.Call) and dotted(e.func) in ("nnx.merge", "flax.nnx.merge") and len(e.args) == 2 and dotted(e.args[0]) == gparam
+            kind = _state_kind(cfg, at, e.args[1], set()) if okm else ("unknown", "")
+            ok = okm and kind[0] == "loaded"
+            ck.ob("R2-pickle-helper", q, f"merge:{'device' if cfg.control_deps(at) and any(lab is True for _, lab in cfg.control_deps(at)) else 'default'}-branch", ok,
+                  f"return <- {short(e, 60)}; state <- {kind[0]}", "" if ok else "the returned module must be nnx.merge(<given graphdef>, <state loaded from the file>) on every branch", loc(mi, e))
 
-    # ---- R3 -------------------------------------------------------------------------------------------------
-    m = repo.method("rl_blox.logging.logger.StandardLogger", "_save_checkpoint", inherited=False)
-    txt = "\n".join(ast.unparse(x) for x in m[1].body)
-    ok = "_, state = nnx.split(value)" in txt and "self.checkpointer.save(f'{checkpoint_path}', state)" in txt and "self.checkpointer.wait_until_finished()" in txt
-    ck.ob("R3-checkpoints", "rl_blox.logging.logger.StandardLogger._save_checkpoint", "full-state-and-wait", ok, "state = nnx.split(value)[1]; save; wait", "" if ok else "must save the complete state half of nnx.split and wait for the write", loc(repo.cls("rl_blox.logging.logger.StandardLogger")._module, m[1]))
-    m = repo.method("rl_blox.logging.checkpointer.OrbaxCheckpointer", "save_model", inherited=False)
-    txt = [ast.unparse(x) for x in m[1].body if not (isinstance(x, ast.Expr) and isinstance(x.value, ast.Constant))]
-    ok = txt == ["state = nnx.state(model)", "self.checkpointer.save(path, state)", "self.checkpointer.wait_until_finished()"]
-    ck.ob("R3-checkpoints", "rl_blox.logging.checkpointer.OrbaxCheckpointer.save_model", "full-state-and-wait", ok, " ; ".join(txt), "" if ok else "must save nnx.state(model) without a filter (a Param filter drops the tanh heads' action_scale/action_bias) and wait", loc(repo.cls("rl_blox.logging.checkpointer.OrbaxCheckpointer")._module, m[1]))
+
+def r3_checkpoints(ck, repo, nf):
+    writers = [("rl_blox.logging.logger.StandardLogger", "_save_checkpoint"), ("rl_blox.logging.checkpointer.OrbaxCheckpointer", "save_model")]
+    for cq, meth in writers:
+        m = repo.method(cq, meth, inherited=False)
+        ck.need(m is not None, f"{cq}.{meth} not found (anchor vanished)")
+        fn = m[1]
+        fn._module = repo.cls(cq)._module
+        mi = fn._module
+        cfg = nf.cfg_of(fn)
+        site = f"{cq}.{meth}"
+        saves = _calls(cfg, lambda c: isinstance(c.func, ast.Attribute) and c.func.attr == "save" and dotted(c.func.value) == "self.checkpointer")
+        ck.need(len(saves) == 1, f"{site}: expected one self.checkpointer.save call")
+        n, c = saves[0]
+        modelp = positional_params(fn)[-1]
+        kind = _state_kind(cfg, n.id, c.args[1], {modelp}) if len(c.args) > 1 else ("unknown", "")
+        if kind[0] == "unknown":
+            raise AnalysisError(f"{site}: provenance of the saved object `{kind[1]}` not recognised")
+        ok = kind == ("full", modelp)
+        ck.ob("R3-checkpoints", site, "saves-full-state", ok, f"save(.., {short(c.args[1])}) <- {kind[0]} state of `{kind[1] if isinstance(kind[1], str) else ''}`",
+              "" if ok else "the checkpoint must contain the complete module state: a variable filter (e.g. nnx.Param) drops non-parameter variables such as the tanh heads' action_scale / action_bias, which then come from the template on restore", loc(mi, c))
+        waits = _calls(cfg, lambda c: isinstance(c.func, ast.Attribute) and c.func.attr == "wait_until_finished" and dotted(c.func.value) == "self.checkpointer")
+        ok = len(waits) >= 1 and all(cfg.dominates(n.id, w.id) for w, _ in waits) and cfg.paths_avoiding(n.id, cfg.exit, {w.id for w, _ in waits}) is None
+        ck.ob("R3-checkpoints", site, "waits-for-write", ok, "save ; wait_until_finished on every path", "" if ok else "the asynchronous write must be awaited before the method returns / the path is published", loc(mi, c))
     q = "rl_blox.blox.probabilistic_ensemble.restore_checkpoint"
     fn = repo.func(q)
-    txt = [ast.unparse(x) for x in fn.body if not (isinstance(x, (ast.Expr, ast.Import)) )]
-    ok = txt == ["checkpointer = ocp.PyTreeCheckpointer()", "state = checkpointer.restore(path)", "graphdef, _ = nnx.split(model)", "return nnx.merge(graphdef, state)"]
-    ck.ob("R3-checkpoints", q, "restore-and-merge", ok, " ; ".join(txt), "" if ok else "must restore the state from `path` and merge it with the given model's graphdef", loc(fn._module, fn))
+    mi = fn._module
+    cfg = nf.cfg_of(fn)
+    pathp, modelp = positional_params(fn)[:2]
+    rets = [n for n in cfg.nodes if n.kind == "stmt" and isinstance(n.ast, ast.Return)]
+    ck.need(len(rets) == 1, f"{q}: expected one return")
+    e = rets[0].ast.value
+    if isinstance(e, ast.Name):
+        ds = cfg.defs_of(rets[0].id, e.id)
+        ck.need(len(ds) == 1 and ds[0].kind == "assign", f"{q}: returned value not a single definition")
+        e, at = ds[0].value, ds[0].node
+    else:
+        at = rets[0].id
+    ck.need(isinstance(e, ast.Call) and dotted(e.func) in ("nnx.merge", "flax.nnx.merge") and e.args, f"{q}: result is not an nnx.merge(...) (unrecognised idiom)")
+    g = _state_kind(cfg, at, e.args[0], {modelp})
+    okg = g == ("graphdef", modelp)
+    ck.ob("R3-checkpoints", q, "merges-own-graphdef", okg, f"merge({short(e.args[0])}, ...) <- {g[0]} of `{g[1] if isinstance(g[1], str) else ''}`", "" if okg else "the restored state must be merged with the graphdef of the given model", loc(mi, e))
+    states = e.args[1:]
+    kinds = [_state_kind(cfg, at, s, {modelp}) for s in states]
+    n_rest = [k for k in kinds if k[0] == "restored"]
+    other = [(s, k) for s, k in zip(states, kinds) if k[0] != "restored"]
+    ok = len(n_rest) == 1 and not other
+    ck.ob("R3-checkpoints", q, "state-from-checkpoint-only", ok, f"merge(graphdef, {', '.join(short(s) for s in states)}) <- {[k[0] for k in kinds]}",
+          "" if ok else f"part of the returned module's state ({[short(s) for s, _ in other]}) does not come from the checkpoint but from the template model: the reload differs whenever the template differs (e.g. other action bounds)", loc(mi, e))
+    for k in n_rest:
+        rc = k[1]
+        okp = rc.args and dotted(rc.args[0]) == pathp
+        tgt = rc.args[1] if len(rc.args) > 1 else next((kw.value for kw in rc.keywords if kw.arg in ("target", "item", "args")), None)
+        tk = _state_kind(cfg, cfg.node_of(rc).id, tgt, {modelp}) if tgt is not None else None
+        okt = tk == ("full", modelp)
+        ck.ob("R3-checkpoints", q, "restore-from-path", bool(okp), f"{short(rc, 60)}", "" if okp else "must restore from the given path", loc(mi, rc))
+        why = ""
+        if tgt is None:
+            why = ("untargeted restore returns nested dicts with *string* keys; nnx.merge consumes the leaves in sorted key order, so list entries beyond ten ('10' < '2') are assigned to the wrong, "
+                   "equally shaped layers: the reloaded network computes a different function")
+        elif not okt:
+            why = f"the restore target is not the complete state of the model ({tk[0] if tk else '?'}): only part of the saved state is read back"
+        ck.ob("R3-checkpoints", q, "restore-into-model-structure", okt, f"target = {short(tgt, 50) if tgt is not None else None}", why, loc(mi, rc))
+
+
+def run(ck, repo: Repo, tier: str):
+    nf = NF(repo, inline_depth=1, inline_calls=False)
+    ck.guard(r1_buffers, ck, repo, nf)
+    ck.guard(r2_pickle_helper, ck, repo, nf)
+    ck.guard(r3_checkpoints, ck, repo, nf)
 
 
 _F, _S = "rl_blox/blox/replay_buffer.py", "rl_blox/util/serialize.py"
+_PE = "rl_blox/blox/probabilistic_ensemble.py"
 MUTANTS = [
     {"id": "c19-batch-not-deleted", "file": _F, "rule": "R1", "nth": 0, "find": "        d = dict(self.__dict__)\n        del d[\"Batch\"]\n        return d", "replace": "        d = dict(self.__dict__)\n        return d"},
     {"id": "c19-mask-deleted", "file": _F, "rule": "R1", "nth": 1, "find": "        d = dict(self.__dict__)\n        del d[\"Batch\"]\n        return d", "replace": "        d = dict(self.__dict__)\n        del d[\"Batch\"]\n        del d[\"mask_\"]\n        return d"},
     {"id": "c19-getstate-live-dict", "file": _F, "rule": "R1", "nth": 0, "find": "        d = dict(self.__dict__)\n        del d[\"Batch\"]", "replace": "        d = self.__dict__\n        del d[\"Batch\"]"},
     {"id": "c19-setstate-no-rebuild", "file": _F, "rule": "R1", "nth": 0, "find": "        self.__dict__.update(d)\n        self.Batch = namedtuple(\"Batch\", self.buffer)", "replace": "        self.__dict__.update(d)"},
-    {"id": "c19-setstate-rebuild-first", "file": _F, "rule": "R1", "nth": 1, "find": "        self.__dict__.update(d)\n        self.Batch = namedtuple(\"Batch\", self.buffer)", "replace": "        self.Batch = namedtuple(\"Batch\", d[\"buffer\"])\n        self.__dict__.update(d)"},
+    {"id": "c19-setstate-rebuild-first", "file": _F, "rule": "R1", "nth": 1, "find": "        self.__dict__.update(d)\n        self.Batch = namedtuple(\"Batch\", self.buffer)", "replace": "        self.Batch = namedtuple(\"Batch\", self.buffer)\n        self.__dict__.update(d)"},
     {"id": "c19-setstate-other-fields", "file": _F, "rule": "R1", "nth": 0, "find": "        self.__dict__.update(d)\n        self.Batch = namedtuple(\"Batch\", self.buffer)", "replace": "        self.__dict__.update(d)\n        self.Batch = namedtuple(\"Batch\", sorted(self.buffer))"},
+    {"id": "c19-setstate-resets-cursor", "file": _F, "rule": "R1", "nth": 0, "find": "        self.__dict__.update(d)\n        self.Batch = namedtuple(\"Batch\", self.buffer)", "replace": "        self.__dict__.update(d)\n        self.Batch = namedtuple(\"Batch\", self.buffer)\n        self.insert_idx = self.current_len % self.buffer_size"},
+    {"id": "c19-setstate-recomputes-max", "file": _F, "rule": "R1", "find": "    def reset_max_priority(self):\n        self.priority.reset_max_priority(self.current_len)\n\nclass PrioritizedReplayBuffer(LAP):", "replace": "    def reset_max_priority(self):\n        self.priority.reset_max_priority(self.current_len)\n\n    def __setstate__(self, d):\n        super().__setstate__(d)\n        self.reset_max_priority()\n\nclass PrioritizedReplayBuffer(LAP):"},
+    {"id": "c19-getstate-truncates-at-cursor", "file": _F, "rule": "R1", "nth": 0, "find": "        d = dict(self.__dict__)\n        del d[\"Batch\"]\n        return d\n\n    def __setstate__(self, d):\n        self.__dict__.update(d)\n",
+     "replace": "        d = dict(self.__dict__)\n        del d[\"Batch\"]\n        d[\"buffer\"] = OrderedDict((k, v[: self.insert_idx]) for k, v in self.buffer.items())\n        return d\n\n    def __setstate__(self, d):\n        self.__dict__.update(d)\n        self.buffer = OrderedDict((k, np.concatenate((v, np.empty((self.buffer_size - len(v),) + v.shape[1:], dtype=v.dtype)))) for k, v in self.buffer.items())\n"},
     {"id": "c19-save-graphdef", "file": _S, "rule": "R2", "find": "        pickle.dump(state, f)", "replace": "        pickle.dump(graphdef, f)"},
+    {"id": "c19-save-params-only", "file": _S, "rule": "R2", "find": "    graphdef, state = nnx.split(net)", "replace": "    graphdef, state, _ = nnx.split(net, nnx.Param, ...)"},
     {"id": "c19-load-no-merge", "file": _S, "rule": "R2", "find": "            state = pickle.load(f)\n            net = nnx.merge(graphdef, state)\n\n    return net", "replace": "            state = pickle.load(f)\n            net = state\n\n    return net"},
     {"id": "c19-orbax-param-only", "file": "rl_blox/logging/checkpointer.py", "rule": "R3", "find": "        state = nnx.state(model)", "replace": "        state = nnx.state(model, nnx.Param)"},
-    {"id": "c19-restore-own-state", "file": "rl_blox/blox/probabilistic_ensemble.py", "rule": "R3", "find": "    graphdef, _ = nnx.split(model)\n    return nnx.merge(graphdef, state)", "replace": "    graphdef, own = nnx.split(model)\n    return nnx.merge(graphdef, own)"},
+    {"id": "c19-logger-param-only", "file": "rl_blox/logging/logger.py", "rule": "R3", "find": "        _, state = nnx.split(value)\n", "replace": "        _, state, _ = nnx.split(value, nnx.Param, ...)\n"},
+    {"id": "c19-orbax-no-wait", "file": "rl_blox/logging/checkpointer.py", "rule": "R3", "find": "        self.checkpointer.save(path, state)\n        self.checkpointer.wait_until_finished()", "replace": "        self.checkpointer.save(path, state)"},
+    {"id": "c19-restore-own-state", "file": _PE, "rule": "R3", "find": "    state = checkpointer.restore(path, target_state)\n    return nnx.merge(graphdef, state)", "replace": "    state = checkpointer.restore(path, target_state)\n    return nnx.merge(graphdef, target_state)"},
+    {"id": "c19-restore-untargeted", "file": _PE, "rule": "R3", "find": "    state = checkpointer.restore(path, target_state)", "replace": "    state = checkpointer.restore(path)"},
+    {"id": "c19-restore-params-rest-from-template", "file": _PE, "rule": "R3", "find": "    graphdef, target_state = nnx.split(model)\n    state = checkpointer.restore(path, target_state)\n    return nnx.merge(graphdef, state)",
+     "replace": "    graphdef, params, rest = nnx.split(model, nnx.Param, ...)\n    params = checkpointer.restore(path, params)\n    return nnx.merge(graphdef, params, rest)"},
 ]
 BENIGN = [
     {"id": "c19-b-getstate-pop", "file": _F, "nth": 0, "find": "        d = dict(self.__dict__)\n        del d[\"Batch\"]\n        return d", "replace": "        d = dict(self.__dict__)\n        d.pop(\"Batch\")\n        return d"},
+    {"id": "c19-b-getstate-copy-method", "file": _F, "nth": 1, "find": "        d = dict(self.__dict__)\n        del d[\"Batch\"]\n        return d", "replace": "        state = self.__dict__.copy()\n        del state[\"Batch\"]\n        return state"},
+    {"id": "c19-b-save-state-call", "file": _S, "find": "    graphdef, state = nnx.split(net)", "replace": "    state = nnx.state(net)"},
+    {"id": "c19-b-orbax-split", "file": "rl_blox/logging/checkpointer.py", "find": "        state = nnx.state(model)", "replace": "        _, state = nnx.split(model)"},
+    {"id": "c19-b-restore-state-call", "file": _PE, "find": "    graphdef, target_state = nnx.split(model)\n    state = checkpointer.restore(path, target_state)", "replace": "    graphdef = nnx.graphdef(model)\n    state = checkpointer.restore(path, nnx.state(model))"},
 ]
